@@ -207,6 +207,52 @@ static void run_gcm(int stream, int thorough)
         }
 }
 
+/* huge one-shot messages: the bit length no longer fits 32 bits (>= 512 MiB) / the byte length no longer fits 32 bits (>= 4 GiB) */
+static void run_gcm_huge(int thorough)
+{
+        static const uint64_t sizes_q[] = { (1ull << 29) + 17 }, sizes_t[] = { (1ull << 29) + 17, (1ull << 32) + 33, (1ull << 31) + 5 };
+        const uint64_t *sizes = thorough ? sizes_t : sizes_q; int ns = thorough ? 3 : 1;
+        for (int si = 0; si < ns; si++) {
+                uint64_t len = sizes[si];
+                uint8_t *pt = aligned_alloc(4096, (len + 4095) & ~4095ull), *buf = aligned_alloc(4096, (len + 4095) & ~4095ull), *exp = aligned_alloc(4096, (len + 4095) & ~4095ull);
+                if (!pt || !buf || !exp) out_err("cannot allocate 3 x %llu bytes", (unsigned long long) len);
+                rng_t r; rng_seed(&r, g_seed ^ 0x4095e ^ len);
+                rng_fill(&r, pt, 1 << 20);
+                for (uint64_t o = 1 << 20; o < len; o += 1 << 20) { uint64_t k = len - o < (1 << 20) ? len - o : (1 << 20); memcpy(pt + o, pt, k); pt[o] ^= (uint8_t) (o >> 20); pt[o + k / 2] ^= (uint8_t) (o >> 28); }
+                uint8_t key[32], iv[12], aad[20], etag[16], tag[16];
+                rng_fill(&r, key, 32); rng_fill(&r, iv, 12); rng_fill(&r, aad, 20);
+                for (int ks = 0; ks < 2; ks++) {
+                        if (ossl_gcm(ks_bits2[ks], 1, key, iv, aad, 20, pt, exp, len, etag)) out_err("OpenSSL GCM oracle failed");
+                        for (int fi = 0; fi < NGCMFAM; fi++) {
+                                const gcmfam_t *f = &gcm_fams[fi];
+                                if (!fam_selected(f->name)) continue;
+                                snprintf(rbuf, sizeof rbuf, "{\"engine\":\"aesdiff\",\"what\":\"gcmhuge\",\"fam\":\"%s\",\"len\":%llu}", f->name, (unsigned long long) len);
+                                snprintf(cur_replay, sizeof cur_replay, "%s", rbuf);
+                                struct isal_gcm_key_data kd __attribute__((aligned(64))); struct isal_gcm_context_data ctx;
+                                ref_aes_t a; ref_aes_expand(&a, key, ks_bits2[ks]);
+                                memset(&kd, 0, sizeof kd); memcpy(&kd, a.enc, (size_t) 16 * (a.nr + 1));
+                                f->s.precomp[ks](&kd);
+                                for (int dir = 0; dir < 2; dir++) {
+                                        int stream = dir;       /* encrypt one-shot (in place), decrypt streamed in two pieces */
+                                        if (dir == 0) memcpy(buf, pt, len);
+                                        LABEL("gcm%d %s huge %s len=%llu", ks_bits2[ks], f->name, dir ? "dec" : "enc", (unsigned long long) len);
+                                        if (!stream) f->s.one[ks][dir][0](&kd, &ctx, buf, buf, len, iv, aad, 20, tag, 16);
+                                        else { uint64_t cut = (len / 2 + 5) & ~15ull; f->s.init[ks](&kd, &ctx, iv, aad, 20); f->s.upd[ks][dir][0](&kd, &ctx, buf, buf, cut); f->s.upd[ks][dir][0](&kd, &ctx, buf + cut, buf + cut, len - cut); f->s.fin[ks][dir](&kd, &ctx, tag, 16); }
+                                        cur_label[0] = 0;
+                                        out_count("gcm_calls", 1); out_count("gcm_huge_calls", 1);
+                                        const uint8_t *want = dir ? pt : exp;
+                                        char key_[160];
+                                        if (memcmp(buf, want, len)) { uint64_t d = 0; while (buf[d] == want[d]) d++; snprintf(key_, sizeof key_, "gcm-huge-data-mismatch %d %s %s", ks_bits2[ks], f->name, dir ? "dec" : "enc"); out_viol(g_prop, key_, rbuf, "len=%llu: output differs from OpenSSL at byte %llu", (unsigned long long) len, (unsigned long long) d); }
+                                        if (memcmp(tag, etag, 16)) { char g[33], e[33]; hex(g, tag, 16); hex(e, etag, 16); snprintf(key_, sizeof key_, "gcm-huge-tag-mismatch %d %s %s", ks_bits2[ks], f->name, dir ? "dec" : "enc"); out_viol(g_prop, key_, rbuf, "len=%llu: tag %s expected %s", (unsigned long long) len, g, e); }
+                                        feat(mix64(0x4095e, mix64((uint64_t) fi * 4 + (uint64_t) ks * 2 + (uint64_t) dir, len)));
+                                }
+                                char n[64]; snprintf(n, sizeof n, "cases_%s", f->name); out_count(n, 1);
+                        }
+                }
+                free(pt); free(buf); free(exp);
+        }
+}
+
 /* ------------------------------------------------------------------ XTS */
 static void xts_case(const xtsfam_t *f, uint64_t c, int thorough)
 {
@@ -428,6 +474,7 @@ int main(int argc, char **argv)
         if (thorough) { free(arena); arena_sz = 160u << 20; arena = aligned_alloc(4096, arena_sz); }
         if (!strcmp(what, "gcm")) run_gcm(0, thorough);
         else if (!strcmp(what, "gcmstream")) run_gcm(1, thorough);
+        else if (!strcmp(what, "gcmhuge")) run_gcm_huge(thorough);
         else if (!strcmp(what, "xts")) run_xts(thorough);
         else if (!strcmp(what, "cbc")) run_cbc(thorough);
         else out_err("unknown --what %s", what);
